@@ -5,7 +5,7 @@ CONSTANTS
   GCMin = 3
   JStar = 1
   MaxBlocks = 7
-  MaxSteps = 12
+  MaxSteps = 11
   MaxClears = 1
   MaxGCs = 2
   FillFirst = 0
